@@ -372,22 +372,27 @@ def ring(dim):
         elif dim == 2:
             ang = np.arange(64) * (2 * np.pi / 64) + 0.01
             r = np.stack([np.cos(ang), np.sin(ang)], 1)
-        else:
+        elif dim == 3:
             m = 200
             i = np.arange(m) + 0.5
             phi = np.arccos(1 - 2 * i / m)
             th = np.pi * (1 + 5 ** 0.5) * i
             r = np.stack([np.cos(th) * np.sin(phi), np.sin(th) * np.sin(phi), np.cos(phi)], 1)
+        else:
+            import itertools
+            r = np.array([d for d in itertools.product((-1.0, 0.0, 1.0), repeat=dim) if any(d)])
+            r = r / np.linalg.norm(r, axis=1, keepdims=True)
         _RINGS[dim] = r
     return _RINGS[dim]
 
 
 def near_boundary(a, vals, h):
-    """for a solid expression: does the sphere of radius h (and h/2) around each point, together
-    with the point itself, contain both members and non-members?"""
+    """for a solid expression: does the sphere of radius h (and h/2) around each point -- in ALL space variables of
+    the expression jointly, so products are handled too -- contain both members and non-members?"""
     n = _nrows(vals)
-    var, dim = space_vars(a)[0]
-    x = np.asarray(vals[var], dtype=np.float64).reshape(n, -1)
+    sv = space_vars(a)
+    dim = sum(d for _, d in sv)
+    x = np.concatenate([np.asarray(vals[v], dtype=np.float64).reshape(n, -1) for v, _ in sv], 1)
     # the centre itself is not consulted: exactly on a leaf boundary its membership is a matter of
     # convention (closed operands, relatively open removal), the ring decides
     has_in = np.zeros(n, dtype=bool)
@@ -395,7 +400,11 @@ def near_boundary(a, vals, h):
     for rad in (h, 0.5 * h):
         for d in ring(dim):
             v2 = dict(vals)
-            v2[var] = x + rad * d
+            y = x + rad * d
+            c = 0
+            for v, dd in sv:
+                v2[v] = y[:, c:c + dd]
+                c += dd
             f = sdf(a, v2) <= 0
             has_in |= f
             has_out |= ~f
